@@ -93,6 +93,12 @@ var c12classes = []c12class{
 	{"two-value-lookup-key-of-wrong-kind", `{{ v, ok := zq_mi["a"] }}`, true, false},
 	{"two-value-lookup-on-int", `{{ _, ok := zq_i[0] }}`, true, false},
 	{"two-value-assign-index-out-of-range", `{{ v := 1 }}{{ ok := 1 }}{{ v, ok = zq_xs[7] }}`, true, false},
+	{"index-nil-on-map", `{{ zq_mi[nil] }}`, true, false},
+	{"index-nil-on-string-map-two-value", `{{ v, ok := zq_many[nil] }}`, true, false},
+	{"call-nil-value-with-arguments", `{{ zq_msi.absent(1) }}`, true, false},
+	{"call-nil-value-prefix-form", `{{ zq_msi.absent: 1 }}`, true, false},
+	{"call-nil-value-in-expression", `{{ 1 + zq_msi.absent(1) }}`, true, false},
+	{"call-nil-value-piped", `{{ 1 | zq_msi.absent }}`, true, false},
 	{"call-non-func-paren", `{{ zq_i() }}`, true, false},
 	{"call-non-func-colon", `{{ zq_i: 1 }}`, true, false},
 	{"call-non-func-pipe", `{{ 1 | zq_i }}`, true, false},
